@@ -94,7 +94,9 @@ let rp_msg_of (tok : string) : rp_msg =
      N = notification, T = tampered notification, R = made-up response, Z = unknown token *)
   | 'q' | 'N' -> mk RpGenuine RpEchoNone RpResponse
   | 'T' | 'R' -> mk RpForged RpEchoNone RpResponse
-  | 'Z' -> mk RpUnroutable RpEchoNone RpResponse
+  (* Z: unknown token.  W: made-up response without a Partial IV - it is decrypted with the
+     request's nonce and never gets near the replay window: the same (no) effect *)
+  | 'Z' | 'W' -> mk RpUnroutable RpEchoNone RpResponse
   | _ -> failwith "msg kind"
 
 let verdict_letter (r : rp_verdict) : string =
